@@ -160,22 +160,7 @@ func ruleC05(c *Check) {
 				c.req(ok, "C05.2", effConstruct(en.Msg, e), e.Pos, "dominated by found ∧ Equals(signer "+en.Signer+", stored binding.Owner)")
 			}
 		case "MsgWithdrawEarnedFees":
-			prov := en.Field("Provider")
-			owner := fmt.Sprintf("(res 0 (%s %s))", gOwner.Name, prov)
-			for _, e := range muts {
-				g := c.closeFacts(e.Guards)
-				mentionsProv := effMentions(e, prov)
-				if mentionsProv {
-					c.req(equalsFact(g, S, owner), "C05.3", effConstruct(en.Msg, e), e.Pos, "effect on the named provider's records is dominated by Equals(signer, stored owner of the provider)")
-				} else {
-					c.ok("C05.3", effConstruct(en.Msg, e), e.Pos, "owner-wide effect (does not name the message's provider)")
-				}
-				// owner-keyed accesses use the signer
-				if e.Kind == "store" && (e.Family == "0x19" || e.Family == "0x05" || e.Family == "0x07") {
-					c.req(effMentions(e, S), "C05.3", effConstruct(en.Msg, e)+"#key", e.Pos, "owner-keyed record is addressed by the signer: "+shortTerm(e.Key))
-				}
-			}
-			c.req(len(muts) > 0, "C05.3", en.Msg+"#effects", en.Pos, fmt.Sprintf("%d state-changing effects", len(muts)))
+			c.withdrawAuthority("C05.3", en, gOwner)
 		case "MsgPauseRequestContext", "MsgStartRequestContext", "MsgKillRequestContext", "MsgUpdateRequestContext":
 			load := fmt.Sprintf("(res 0 (%s %s))", gContext.Name, en.Field("RequestContextId"))
 			consumer := "(.RequestContext.Consumer " + load + ")"
@@ -312,3 +297,43 @@ func effMentions(e *Eff, term string) bool {
 }
 
 var _ = strings.Contains
+
+// withdrawAuthority (C05.3, C13.3): a withdrawal that names a provider touches that provider's records only if the
+// provider has a stored owner and the signer is that owner; owner-keyed records are addressed by the signer.
+func (c *Check) withdrawAuthority(rule string, en *Entry, gOwner *Func) {
+	sum := c.P.SummaryOf(en.Handler)
+	muts := c.mutating(sum)
+	S := en.SignerTerm()
+	prov := en.Field("Provider")
+	owner := fmt.Sprintf("(res 0 (%s %s))", gOwner.Name, prov)
+	found := fmt.Sprintf("(res 1 (%s %s))", gOwner.Name, prov)
+	for _, e := range muts {
+		g := c.closeFacts(e.Guards)
+		mentionsProv := effMentions(e, prov)
+		if mentionsProv {
+			c.req(equalsFact(g, S, owner), rule, effConstruct(en.Msg, e), e.Pos, "effect on the named provider's records is dominated by Equals(signer, stored owner of the provider)")
+			if len(gOwner.Res) == 2 {
+				// an address without an owner record owns nothing: its "records" are other providers' (prefix scans)
+				_, f1 := hasFact(g, found, false)
+				ownerNonEmpty := false
+				for _, fa := range g {
+					if !fa.Neg && fa.T.Op == "nonempty" && fa.T.A[0].String() == owner {
+						ownerNonEmpty = true
+					}
+					if fa.Neg && strings.HasSuffix(fa.T.Op, "AccAddress.Empty") && len(fa.T.A) == 1 && fa.T.A[0].String() == owner {
+						ownerNonEmpty = true
+					}
+				}
+				// Equals(signer, owner) with a valid (non-empty) signer implies a stored owner as well
+				c.req(f1 || ownerNonEmpty || equalsFact(g, S, owner), rule, effConstruct(en.Msg, e)+"#owned", e.Pos, "the named provider has a stored owner")
+			}
+		} else {
+			c.ok(rule, effConstruct(en.Msg, e), e.Pos, "owner-wide effect (does not name the message's provider)")
+		}
+		// owner-keyed accesses use the signer
+		if e.Kind == "store" && (e.Family == "0x19" || e.Family == "0x05" || e.Family == "0x07") {
+			c.req(effMentions(e, S), rule, effConstruct(en.Msg, e)+"#key", e.Pos, "owner-keyed record is addressed by the signer: "+shortTerm(e.Key))
+		}
+	}
+	c.req(len(muts) > 0, rule, en.Msg+"#effects", en.Pos, fmt.Sprintf("%d state-changing effects", len(muts)))
+}
